@@ -7,10 +7,10 @@ from vlib import *
 CONCS = [
     {"codes": {"a": "a", "A": "A", "b": "b", "B": "B", "bad": "a b"},
      "names": {"_x": "_x", "_X": "_X", "_y": "_y", "_Y": "_Y", "_z": "_z", "_w": "_w", "bad": "x"},
-     "cats": {"k": "k", "k2": "kk"}, "unk_as_null": True},
+     "cats": {"k": "atom_site", "k2": "atom-site"}, "unk_as_null": True},      # category look-alikes: a pattern character,
     {"codes": {"a": "été.1", "A": "ÉTÉ.1", "b": "σ", "B": "Σ", "bad": ""},
      "names": {"_x": "_ångström", "_X": "_ÅNGSTRÖM", "_y": "_y.σσ", "_Y": "_Y.Σσ", "_z": "_z[1]", "_w": "_w.\u03c9", "bad": "_"},
-     "cats": {"k": "cat one", "k2": "É"}, "unk_as_null": False},
+     "cats": {"k": "cat one", "k2": "CAT ONE"}, "unk_as_null": False},           # another capitalisation
     {"codes": {"a": "strasse", "A": "STRAßE", "b": "b", "B": "B", "bad": "x\ty"},
      "names": {"_x": "_\U00010428", "_X": "_\U00010400", "_y": "_y", "_Y": "_Y", "_z": "_z", "_w": "_w", "bad": "_a b"},
      "cats": {"k": "K", "k2": "k"}, "unk_as_null": True},
@@ -144,6 +144,8 @@ class Conc:
                 # stale handles: the header promises only best effort; any outcome without side effects is acceptable
                 lvl = 1 if stale else 2
                 d.append((lvl, "%s: rc %s, specification predicts %s" % (op, rc, e["rc"])))
+        if op == "set_value" and e.get("stuck") and o.get("rc") == 34 and getattr(self, "report_stuck", False):
+            d.append((2, "set_value: emptied scalar loop refuses a new scalar (CIF_RESERVED_LOOP): the row counter of a scalar loop whose only packet lost all its values is not reset"))
         if e.get("rc", 0) not in (0, 44) and o.get("rc") not in (0, 44):
             return d
         if op == "parse_into":
